@@ -28,6 +28,12 @@ static __thread volatile unsigned long counts[K_N];
 static __thread char last_path[256];
 
 unsigned long *tzseam_counts(void) { return (unsigned long *)counts; }
+
+/* optional callback before a file-system request is passed on: the simulator makes it a scheduling
+ * point while a call through the library's default (real file system) reader is in progress */
+static void (*volatile fs_hook)(int) = 0;
+void tzseam_set_hook(void (*h)(int)) { fs_hook = h; }
+#define FS_HOOK() do { void (*h_)(int) = fs_hook; if (h_) h_(K_FS); } while (0)
 const char *tzseam_last_path(void) { return last_path; }
 
 static void note_path(const char *p) {
@@ -79,6 +85,7 @@ int open(const char *path, int flags, ...) {
     if (flags & (O_CREAT | O_TMPFILE)) { va_list ap; va_start(ap, flags); mode = va_arg(ap, mode_t); va_end(ap); }
     __sync_fetch_and_add(&counts[K_FS], 1);
     note_path(path);
+    FS_HOOK();
     return real(path, flags, mode);
 }
 
@@ -88,6 +95,7 @@ int open64(const char *path, int flags, ...) {
     if (flags & (O_CREAT | O_TMPFILE)) { va_list ap; va_start(ap, flags); mode = va_arg(ap, mode_t); va_end(ap); }
     __sync_fetch_and_add(&counts[K_FS], 1);
     note_path(path);
+    FS_HOOK();
     return real(path, flags, mode);
 }
 
@@ -97,6 +105,7 @@ int openat(int dirfd, const char *path, int flags, ...) {
     if (flags & (O_CREAT | O_TMPFILE)) { va_list ap; va_start(ap, flags); mode = va_arg(ap, mode_t); va_end(ap); }
     __sync_fetch_and_add(&counts[K_FS], 1);
     note_path(path);
+    FS_HOOK();
     return real(dirfd, path, flags, mode);
 }
 
@@ -106,6 +115,7 @@ int openat64(int dirfd, const char *path, int flags, ...) {
     if (flags & (O_CREAT | O_TMPFILE)) { va_list ap; va_start(ap, flags); mode = va_arg(ap, mode_t); va_end(ap); }
     __sync_fetch_and_add(&counts[K_FS], 1);
     note_path(path);
+    FS_HOOK();
     return real(dirfd, path, flags, mode);
 }
 
@@ -113,6 +123,7 @@ int stat(const char *path, struct stat *st) {
     REAL(int, stat, const char *, struct stat *)
     __sync_fetch_and_add(&counts[K_FS], 1);
     note_path(path);
+    FS_HOOK();
     return real(path, st);
 }
 
@@ -120,6 +131,7 @@ int stat64(const char *path, struct stat64 *st) {
     REAL(int, stat64, const char *, struct stat64 *)
     __sync_fetch_and_add(&counts[K_FS], 1);
     note_path(path);
+    FS_HOOK();
     return real(path, st);
 }
 
@@ -127,6 +139,7 @@ int lstat(const char *path, struct stat *st) {
     REAL(int, lstat, const char *, struct stat *)
     __sync_fetch_and_add(&counts[K_FS], 1);
     note_path(path);
+    FS_HOOK();
     return real(path, st);
 }
 
@@ -134,6 +147,7 @@ int lstat64(const char *path, struct stat64 *st) {
     REAL(int, lstat64, const char *, struct stat64 *)
     __sync_fetch_and_add(&counts[K_FS], 1);
     note_path(path);
+    FS_HOOK();
     return real(path, st);
 }
 
@@ -141,6 +155,7 @@ int fstatat(int dirfd, const char *path, struct stat *st, int flags) {
     REAL(int, fstatat, int, const char *, struct stat *, int)
     __sync_fetch_and_add(&counts[K_FS], 1);
     note_path(path);
+    FS_HOOK();
     return real(dirfd, path, st, flags);
 }
 
@@ -148,6 +163,7 @@ int fstatat64(int dirfd, const char *path, struct stat64 *st, int flags) {
     REAL(int, fstatat64, int, const char *, struct stat64 *, int)
     __sync_fetch_and_add(&counts[K_FS], 1);
     note_path(path);
+    FS_HOOK();
     return real(dirfd, path, st, flags);
 }
 
@@ -158,6 +174,7 @@ int statx(int dirfd, const char *path, int flags, unsigned int mask, struct stat
     if (path && path[0]) {
         __sync_fetch_and_add(&counts[K_FS], 1);
         note_path(path);
+        FS_HOOK();
     }
     return real(dirfd, path, flags, mask, buf);
 }
@@ -166,6 +183,7 @@ ssize_t readlink(const char *path, char *buf, size_t n) {
     REAL(ssize_t, readlink, const char *, char *, size_t)
     __sync_fetch_and_add(&counts[K_FS], 1);
     note_path(path);
+    FS_HOOK();
     return real(path, buf, n);
 }
 
@@ -173,6 +191,7 @@ ssize_t readlinkat(int dirfd, const char *path, char *buf, size_t n) {
     REAL(ssize_t, readlinkat, int, const char *, char *, size_t)
     __sync_fetch_and_add(&counts[K_FS], 1);
     note_path(path);
+    FS_HOOK();
     return real(dirfd, path, buf, n);
 }
 
@@ -180,6 +199,7 @@ int access(const char *path, int mode) {
     REAL(int, access, const char *, int)
     __sync_fetch_and_add(&counts[K_FS], 1);
     note_path(path);
+    FS_HOOK();
     return real(path, mode);
 }
 
@@ -187,6 +207,7 @@ int faccessat(int dirfd, const char *path, int mode, int flags) {
     REAL(int, faccessat, int, const char *, int, int)
     __sync_fetch_and_add(&counts[K_FS], 1);
     note_path(path);
+    FS_HOOK();
     return real(dirfd, path, mode, flags);
 }
 
@@ -194,6 +215,7 @@ DIR *opendir(const char *path) {
     REAL(DIR *, opendir, const char *)
     __sync_fetch_and_add(&counts[K_FS], 1);
     note_path(path);
+    FS_HOOK();
     return real(path);
 }
 
